@@ -231,7 +231,8 @@ impl Run {
         agg.sim.update_digester().await?;
         // the node already holds the last blocks before the start point
         agg.sim.serve_blocks(91, 100, 10);
-        let front = Front::spawn(agg.routes.clone()).await.with_context(|| "cannot bind the loopback listener of the front")?;
+        // one listener of the front per real signer: the signers' own HTTP clients carry nothing that names them
+        let front = Front::spawn(agg.routes.clone(), n_real).await.with_context(|| "cannot bind the loopback listeners of the front")?;
 
         // model seeds: what the aggregator holds for the genesis epochs = the fixture's keys
         let mut model = Model::new(pp.clone());
@@ -254,7 +255,7 @@ impl Run {
                 publish_attempts: 1 + rnd::below(rng, 3) as u8,
                 retention: if rnd::chance(rng, 1, 2) { None } else { Some(3 + rnd::usize_below(rng, 3)) },
             };
-            let mut node = SignerNode::new(i, f, dir.join(format!("signer-{i}")), front.url.clone(), settings)?;
+            let mut node = SignerNode::new(i, f, dir.join(format!("signer-{i}")), front.urls[i].clone(), settings)?;
             // signer 0 always was around before the history starts; the others usually
             let seeded = i == 0 || rnd::chance(rng, 3, 4);
             if seeded {
